@@ -449,6 +449,51 @@ pub fn run(ctx: &Ctx) -> Report {
         }
         acc
     });
+    // ---- the threshold-paced path of the optimised build ---------------------------------------------
+    // Checked builds collect before an allocation on their own path; optimised builds decide in
+    // `collect_if_required`.  With the pacing hook that decision is "now" at every allocation: the
+    // heap-shape programs with chains up to length 1 (all of them in the thorough tier) run on the optimised
+    // runner without collections and with a paced collection at every allocation, swept objects quarantined.
+    let paced: Vec<Shape> = shapes(if thorough { 2 } else { 1 }, thorough);
+    let n_paced = paced.len();
+    let paced_accs = par_map(&ctx.runner_opt, ctx.workers, paced.into_iter(), |runner, _i, s| {
+        runner.timeout = std::time::Duration::from_secs(60);
+        let mut acc = Acc::default();
+        let (o, never, _, _) = run_with(runner, &s.source, gc("never", vec![], false));
+        if let Some(r) = o.resp() {
+            if !r.config.starts_with("opt") {
+                crate::pool::machinery_failure("C01's paced pass must run on the optimised runner");
+            }
+        }
+        let (oa, always, uaf, _) = run_with(runner, &s.source, gc("paced_always", vec![], true));
+        acc.runs += 2;
+        acc.schedules += 2;
+        if !matches!(never.as_ref().map(|r| &r.outcome), Some(proto::Outcome::Ok)) {
+            acc.violations.push((format!("heap-shape program does not run cleanly on the optimised runner even without collections: {:?}", never), json!({"shape": s.describe, "source": s.source})));
+            return acc;
+        }
+        if let Some(h) = oa.resp().and_then(|r| r.heap.as_ref()) {
+            if h.quarantined > 0 {
+                acc.freed_something += 1;
+            }
+        }
+        if !uaf.is_empty() || !same(&never, &always) {
+            match attributable(s.abandoned_fiber, &uaf, active_ref) {
+                Some(f) => {
+                    *acc.attributed.entry(f).or_insert(0) += 1;
+                }
+                None => acc.violations.push((
+                    format!("[{}] optimised build, a paced collection at every allocation: {} use-after-free events {:?}; output {:?} vs never-collect output {:?}", s.describe, uaf.len(), uaf.iter().take(3).collect::<Vec<_>>(), always.as_ref().map(|r| (&r.out, &r.outcome)), never.as_ref().map(|r| &r.out)),
+                    json!({"shape": s.describe, "runner": "release", "request": {"op": "run", "snippets": s.source.split(SNIPPET_SEPARATOR).collect::<Vec<_>>(), "gc": {"mode": "paced_always", "quarantine": true}, "want": ["uaf"]}, "uaf": uaf, "observed": always, "never_collect_run": never}),
+                )),
+            }
+        }
+        acc
+    });
+    let paced_freed: usize = paced_accs.iter().map(|a| a.freed_something).sum();
+    if paced_freed * 2 < n_paced && paced_accs.iter().all(|a| a.violations.is_empty()) {
+        crate::pool::machinery_failure(&format!("C01: paced collections freed something in only {} of {} programs on the optimised runner", paced_freed, n_paced));
+    }
     // ---- the other profiles' corpora: any program that holds temporaries across an allocation --------
     let mut corpus: Vec<(String, BTreeMap<String, String>)> = Vec::new();
     for c in c05::cases_for_c04(false).into_iter().chain(c06::cases_for_c04(false)).chain(c07::cases_for_c04(false)).chain(c08::cases_for_c04(false)).chain(c18::cases_for_c04(thorough)) {
@@ -488,6 +533,16 @@ pub fn run(ctx: &Ctx) -> Report {
         acc
     });
     let mut acc = Acc::default();
+    let mut paced_runs = 0usize;
+    let mut paced_violations: Vec<(String, serde_json::Value)> = Vec::new();
+    let mut paced_attributed: BTreeMap<String, usize> = BTreeMap::new();
+    for a in paced_accs {
+        paced_runs += a.runs;
+        paced_violations.extend(a.violations);
+        for (k, v) in a.attributed {
+            *paced_attributed.entry(k).or_insert(0) += v;
+        }
+    }
     for a in shape_accs.into_iter().chain(corpus_accs) {
         acc.programs += a.programs;
         acc.runs += a.runs;
@@ -503,6 +558,11 @@ pub fn run(ctx: &Ctx) -> Report {
         if acc.samples.len() < 4 {
             acc.samples.extend(a.samples);
         }
+    }
+    acc.runs += paced_runs;
+    acc.violations.extend(paced_violations);
+    for (k, v) in paced_attributed {
+        *acc.attributed.entry(k).or_insert(0) += v;
     }
     // vacuity guards
     if acc.violations.is_empty() {
@@ -520,10 +580,11 @@ pub fn run(ctx: &Ctx) -> Report {
     report.cov("traces_validated_against_impl", json!(acc.runs));
     report.cov("distinct_nontrivial", json!(n_shapes + n_corpus));
     report.cov("exhaustive", json!(true));
-    report.cov("rule", json!("programs: every heap-shape program root -> holder chain (length <= 2 over 29 holder kinds: vec/tuple element, map key, map value, field, captured variable, bound-method receiver, iterators, map adapter, suspended fiber local, method and static-method captures, error context, superclass link, open variable of an abandoned fiber, and six kinds of transient interpreter state - a return waiting for a finally block, an exception in flight through a finally block, a fiber call argument, a yielded and resumed value, an operand of an unfinished literal, an argument of an unfinished call - and six operations on temporaries: slice / index / collect of a temporary vec, slice of a temporary tuple, items / values of a temporary map) -> referent (20 kinds), the root being a global, a local, a closed variable, or - with one interpreter and two runs - a variable of a frame that an uncaught error discarded in the first run (the frame that threw, a frame or a fiber that was waiting for the fiber that threw), reached in the second run through an escaped closure; after construction every other reference is dropped, garbage of six kinds is allocated, the referent is reached through the chain and touched in every way its kind allows; plus the C05/C06/C07/C08/C18 generator corpora and the C14 (modules) and C17 (error paths through every call link) corpora with their module tables. plus the open-variable lists: three locals of one activation (function, fiber body, top-level block), each never captured / captured only by a closure that has died / captured by a kept closure, closures made in either order, then collections, every variable captured again, read and written through old and new closures (156 programs). schedules: never (comparison), always (collect at every allocation, swept objects quarantined and every later touch reported), only{i} for every allocation index of the small programs (all pairs in the thorough tier). oracle: no use-after-free event, no object swept while borrowed, output identical to the never-collect run."));
+    report.cov("rule", json!("programs: every heap-shape program root -> holder chain (length <= 2 over 29 holder kinds: vec/tuple element, map key, map value, field, captured variable, bound-method receiver, iterators, map adapter, suspended fiber local, method and static-method captures, error context, superclass link, open variable of an abandoned fiber, and six kinds of transient interpreter state - a return waiting for a finally block, an exception in flight through a finally block, a fiber call argument, a yielded and resumed value, an operand of an unfinished literal, an argument of an unfinished call - and six operations on temporaries: slice / index / collect of a temporary vec, slice of a temporary tuple, items / values of a temporary map) -> referent (20 kinds), the root being a global, a local, a closed variable, or - with one interpreter and two runs - a variable of a frame that an uncaught error discarded in the first run (the frame that threw, a frame or a fiber that was waiting for the fiber that threw), reached in the second run through an escaped closure; after construction every other reference is dropped, garbage of six kinds is allocated, the referent is reached through the chain and touched in every way its kind allows; plus the C05/C06/C07/C08/C18 generator corpora and the C14 (modules) and C17 (error paths through every call link) corpora with their module tables. plus the open-variable lists: three locals of one activation (function, fiber body, top-level block), each never captured / captured only by a closure that has died / captured by a kept closure, closures made in either order, then collections, every variable captured again, read and written through old and new closures (156 programs). schedules: never (comparison), always (collect at every allocation, swept objects quarantined and every later touch reported), only{i} for every allocation index of the small programs (all pairs in the thorough tier); and on the optimised runner, whose collections are decided on the threshold-paced path, never and a paced collection at every allocation (pacing hook) for the heap-shape programs with chains up to 1 (2 in the thorough tier). oracle: no use-after-free event, no object swept while borrowed, output identical to the never-collect run."));
     report.cov("bounds", json!({"chain_length": 2, "outer_holders_of_chains_of_two": if thorough { "all 29" } else { "7 representatives" }, "only_i_for_program_allocations_up_to": 80, "pairs_for_program_allocations_up_to": if thorough { 40 } else { 0 }}));
     report.cov("heap_shape_programs", json!(n_shapes));
     report.cov("corpus_programs", json!(n_corpus));
+    report.cov("programs_run_on_the_optimised_runner_with_paced_collections", json!(n_paced));
     report.cov("schedules_run", json!(acc.schedules));
     report.cov("allocation_points_covered", json!(acc.alloc_points));
     report.cov("holder_and_referent_kinds_exercised", json!(acc.edges.len()));
